@@ -209,7 +209,7 @@ func check(c Case, r *vh.R) {
 	if s0 > e0 {
 		r.Class("empty-window-intersection")
 	}
-	var t int64
+	var t, nsec int64 // the verification instant is t seconds + nsec nanoseconds
 	switch c.Time {
 	case "start":
 		t = s0
@@ -219,10 +219,20 @@ func check(c Case, r *vh.R) {
 		t = s0 - 1
 	case "end+1":
 		t = e0 + 1
+	case "start-ns": // one nanosecond before the window opens
+		t, nsec = s0-1, 999_999_999
+	case "start+ns":
+		t, nsec = s0, 1
+	case "end-ns":
+		t, nsec = e0-1, 999_999_999
+	case "end+ns": // inside the second that follows expires: expired
+		t, nsec = e0, 1
+	case "end+ms":
+		t, nsec = e0, 999_000_000
 	default:
 		t = s0 + (e0-s0)/2
 	}
-	inWindow := s0 <= e0 && t >= s0 && t <= e0
+	inWindow := s0 <= e0 && t >= s0 && (t < e0 || (t == e0 && nsec == 0))
 	r.Class("time:" + c.Time)
 
 	// ---- tamper
@@ -380,7 +390,7 @@ func check(c Case, r *vh.R) {
 		r.Failf("no-signatures", "signers ran but the bundle has no signatures section")
 		return
 	}
-	ver, err := signature.NewVerifier(target.Signatures, time.Unix(t, 0), target.Version)
+	ver, err := signature.NewVerifier(target.Signatures, time.Unix(t, nsec), target.Version)
 	if err != nil {
 		r.Class("rejected-newverifier")
 		if !changed && inWindow && !tooLong {
@@ -554,10 +564,10 @@ func TestPropSignatures(t *testing.T) {
 		switch rapid.IntRange(0, 9).Draw(t, "scenario") {
 		case 0:
 			c.Tamper.Kind = "none"
-			c.Time = rapid.SampledFrom([]string{"mid", "start", "end"}).Draw(t, "time")
+			c.Time = rapid.SampledFrom([]string{"mid", "start", "end", "start+ns", "end-ns"}).Draw(t, "time")
 		case 1:
 			c.Tamper.Kind = "none"
-			c.Time = rapid.SampledFrom([]string{"start-1", "end+1"}).Draw(t, "badtime")
+			c.Time = rapid.SampledFrom([]string{"start-1", "end+1", "start-ns", "end+ns", "end+ms"}).Draw(t, "badtime")
 		case 2:
 			c.Tamper.Kind = "none"
 			c.Signers[rapid.IntRange(0, ns-1).Draw(t, "longidx")].Duration = rapid.SampledFrom([]int64{7*24*3600 + 1, 8 * 24 * 3600}).Draw(t, "long")
